@@ -235,8 +235,16 @@ func confirmNatively(bin, harness, replayPath, assertID string, tries int) (bool
 	crashOK := strings.HasPrefix(assertID, "ENGINE.uncaught_panic") || strings.HasSuffix(assertID, ".nontermination") || strings.HasPrefix(assertID, "ENGINE.goroutine_panic") || strings.HasSuffix(assertID, ".no_panic")
 	hangOK := strings.HasPrefix(assertID, "ENGINE.deadlock") || strings.HasSuffix(assertID, ".nontermination")
 	last := ""
+	extra := []string{}
 	for t := 0; t < tries; t++ {
-		r := runNative(bin, harness, []string{"VRT_REPLAY=" + replayPath}, 20*time.Second)
+		r := runNative(bin, harness, append([]string{"VRT_REPLAY=" + replayPath}, extra...), 20*time.Second)
+		if r.exit == 2 && !hangOK && len(extra) == 0 && strings.Contains(r.out, "all goroutines are asleep") {
+			// the recorded schedule parks a goroutine on a container-internal
+			// primitive the native baton cannot see: let the goroutines run free
+			// (yields become runtime.Gosched) and look for the same failure
+			extra = []string{"VRT_NOBATON=1"}
+			continue
+		}
 		last = fmt.Sprintf("exit=%d fails=%v", r.exit, r.fails)
 		switch {
 		case r.exit == 3:
@@ -245,6 +253,8 @@ func confirmNatively(bin, harness, replayPath, assertID string, tries int) (bool
 			return true, last + " (native crash: " + firstLine(r.out) + ")"
 		case r.exit == 124 && hangOK:
 			return true, last + " (native run did not terminate)"
+		case r.exit == 2 && hangOK && strings.Contains(r.out, "all goroutines are asleep"):
+			return true, last + " (Go runtime: all goroutines are asleep - deadlock)"
 		case r.exit == 4:
 			return false, "replay runner error: " + r.out
 		}
